@@ -125,7 +125,10 @@ class RefServer:
                 return bad
             return ("fetch", v, _int(args[0]), tuple(args[1:])), rest
         if v == b"delete":
-            a, noreply = nr(args)
+            if len(args) == 2 and args[1] == b"noreply":
+                a, noreply = args[:1], True
+            else:
+                a, noreply = args, False
             if len(a) != 1 or not _valid_key(a[0]):
                 return bad
             return ("delete", a[0], noreply), rest
